@@ -74,6 +74,47 @@ def sibling(ctx, F, fa, fb, label):
     return ca, ka
 
 
+def matched_names(b, bb, depth=3):
+    """byte strings a matched slice is known to equal on entry to block bb: from the dominating pattern tests, or — for the
+    arm of an or-pattern, which has several predecessors — the union over its predecessors."""
+    m = {v for k, v in lib.slice_matches(b, bb).items() if k.startswith("match:")}
+    if m or depth <= 0:
+        return m
+    out = set()
+    for p in b.pred[bb]:
+        mp = {v for k, v in lib.slice_matches(b, bb, via=p).items() if k.startswith("match:")}
+        out |= mp or matched_names(b, p, depth - 1)
+    return out
+
+
+def cfm_agreement(ctx, F):
+    """the method name each crypt filter writes into the encryption dictionary (CryptFilter::method) is a name that
+    get_crypt_filters maps back to the same filter: otherwise the saved file is decrypted with another filter."""
+    g = F.fn("Document::get_crypt_filters")
+    back = {}
+    for b in F.with_closures(g):
+        for c in b.calls:
+            m = re.search(r"sync::Arc::<.*::(\w+CryptFilter)>::new$", c.full or "")
+            if m:
+                for nm in matched_names(b, c.bb):
+                    back[nm] = m.group(1)
+    ctx.floor("R-SIB", "CFM names recognised by get_crypt_filters", len(back), 4)
+    for ty in ("Rc4CryptFilter", "Aes128CryptFilter", "Aes256CryptFilter", "IdentityCryptFilter"):
+        mb = F.fn("<%s as CryptFilter>::method" % ty)
+        names = set()
+        for bi, si, st in mb.stmts():
+            rv = st.get("rv")
+            if rv and rv["k"] in ("use", "cast"):
+                k = lib._const_bytes_through(mb, rv["o"])
+                if k:
+                    names.add(k)
+        ok = len(names) == 1 and back.get(next(iter(names))) == ty
+        ctx.ob("R-SIB", "cfm-agreement|%s" % ty, ok, "%s writes CFM %s, which get_crypt_filters maps to %s" % (ty, sorted(names), back.get(next(iter(names))) if names else "?"), mb.where(),
+               what="%s::method() writes the crypt filter method name %s, which Document::get_crypt_filters maps to %s: a file encrypted with this filter "
+                    "is decrypted with another one after save and reload (recognised names: %s)"
+                    % (ty, sorted(x.decode("latin1") for x in names), back.get(next(iter(names))) if names else "nothing", {k.decode("latin1"): v for k, v in back.items()}))
+
+
 def add_only_merge(ctx, F, fn, what_merge, rule="R-WHO"):
     """after the initial construction, `objects` may only grow through entry().or_insert()."""
     b = F.fn(fn)
@@ -92,6 +133,7 @@ def add_only_merge(ctx, F, fn, what_merge, rule="R-WHO"):
 
 def run(ctx):
     F = ctx.facts("default")
+    cfm_agreement(ctx, F)
     ca, ka = sibling(ctx, F, "encryption::encrypt_object", "encryption::decrypt_object", "object")
     ctx.floor("R-SIB", "byte constants of encrypt_object", len(ka), 4)
     for t in (b"XRef", b"Crypt", b"DecodeParms"):
